@@ -100,6 +100,31 @@ func genMigFile(rng *rand.Rand, pkg string) (legacy, fresh string) {
 		for k := 0; k < 1+rng.Intn(2); k++ {
 			marker(indent, migMarkerFor(f, rng))
 		}
+		if rng.Intn(3) == 0 {
+			// the same identifier twice with different values (the later line wins), in legacy-then-new, new-then-legacy
+			// or twice the same spelling
+			ty := strings.Fields(f)[1]
+			id, a, b := "maxitems", "2", "5"
+			switch ty {
+			case "string":
+				id, a, b = "maxlength", "10", "20"
+			case "int", "float64":
+				id, a, b = "lte", "10", "99"
+			}
+			switch rng.Intn(4) {
+			case 0:
+				lb.WriteString(indent + "// +govalid:" + id + "=" + a + nl)
+				nb.WriteString(indent + "//govalid:" + id + "=" + a + nl)
+				w(indent + "//govalid:" + id + "=" + b + nl)
+			case 1:
+				w(indent + "//govalid:" + id + "=" + a + nl)
+				lb.WriteString(indent + "// +govalid:" + id + "=" + b + nl)
+				nb.WriteString(indent + "//govalid:" + id + "=" + b + nl)
+			default:
+				marker(indent, id+"="+a)
+				marker(indent, id+"="+b)
+			}
+		}
 		if rng.Intn(4) == 0 {
 			w(indent + "//  +govalid:required" + nl) // two blanks: not a marker in either spelling
 		}
@@ -142,6 +167,11 @@ func migCorpus(pkg string) [][2]string {
 		// division and a comment-like operator sequence; nothing legacy at all
 		{h + "var d = 4 / 2 // plain\n\n" + t("\t//govalid:required\n\tA string\n"),
 			h + "var d = 4 / 2 // plain\n\n" + t("\t//govalid:required\n\tA string\n")},
+		// the same identifier twice in one group, legacy first: the later (new-spelled) line wins in every spelling
+		{h + t("\t// +govalid:maxlength=10\n\t//govalid:maxlength=20\n\tA string\n"),
+			h + t("\t//govalid:maxlength=10\n\t//govalid:maxlength=20\n\tA string\n")},
+		{h + "//govalid:gt=1\n// +govalid:gt=5\n" + t("\tB int\n"),
+			h + "//govalid:gt=1\n//govalid:gt=5\n" + t("\tB int\n")},
 		// nested anonymous struct with markers at two indentation depths, spaces and tabs mixed
 		{h + t("\t// +govalid:required\n\tIn struct {\n\t\t  // +govalid:minlength=2\n\t\tA string\n\t}\n"),
 			h + t("\t//govalid:required\n\tIn struct {\n\t\t  //govalid:minlength=2\n\t\tA string\n\t}\n")},
